@@ -334,6 +334,8 @@ def main():
     elif len(timeouts_inconclusive) > max(2, len(results) // 20):
         print(f"INCONCLUSIVE property={pid}: {len(timeouts_inconclusive)} cases hit the wall-clock guard")
         rc = 2
+    if timeouts:
+        print(f"note: {len(timeouts)} cases hit the wall-clock guard, first: {json.dumps(timeouts[0], default=str)[:600]}")
     if infra:
         print(f"note: {len(infra)} infrastructure errors, first: {infra[0][0][:300]}")
     print(f"{pid} {tier} seed={seed}: {len(results)} cases, {len(sigs)} distinct non-trivial, "
